@@ -194,6 +194,7 @@ def hidden_runs(pid: str, repo: str):
     out = []
     if not os.path.isdir(root):
         return out
+    jobs = []
     for name in sorted(os.listdir(root)):
         mp = os.path.join(root, name, "meta.json")
         if not os.path.exists(mp):
@@ -205,31 +206,39 @@ def hidden_runs(pid: str, repo: str):
         if pid in also:
             meta = dict(meta, **also[pid])
         for which in ("clean", "patch"):
-            pp = os.path.join(root, name, which + ".diff")
-            d = tempfile.mkdtemp(prefix="psthid.")
-            try:
-                shutil.copytree(os.path.join(repo, "persim"), os.path.join(d, "persim"), ignore=shutil.ignore_patterns("__pycache__"))
-                pr = subprocess.run(["patch", "-p1", "-s", "-d", d, "-i", pp], capture_output=True, text=True)
-                if pr.returncode != 0:
-                    out.append(dict(hidden=name, which=which, got="patch-does-not-apply", ok=True))
-                    continue
-                r = subprocess.run([sys.executable, "-m", "pst.check", pid, "--repo", d, "--dry"], cwd=VERIF, capture_output=True,
-                                   text=True, timeout=300)
-                rule = None
-                for ln in r.stdout.splitlines():
-                    if " rule=" in ln:
-                        rule = ln.split(" rule=")[1].split(":")[0]
-                        break
-                got = {0: "silent", 1: "refute", 2: "unmodelled"}.get(r.returncode, "error")
-                if which == "clean":
-                    ok = got != "refute"
-                else:
-                    exp = meta.get("expect_patch", "")
-                    ok = got == "refute" or (exp.startswith("undecided") and got == "unmodelled") or \
-                        ("or silent" in exp and got == "silent")   # a slip of another property's kind (see also_checked_by)
-                out.append(dict(hidden=name, which=which, got=got, rule=rule, ok=ok))
-            finally:
-                shutil.rmtree(d, ignore_errors=True)
+            jobs.append((name, which, meta))
+
+    def one(job):
+        name, which, meta = job
+        pp = os.path.join(root, name, which + ".diff")
+        d = tempfile.mkdtemp(prefix="psthid.")
+        try:
+            shutil.copytree(os.path.join(repo, "persim"), os.path.join(d, "persim"), ignore=shutil.ignore_patterns("__pycache__"))
+            pr = subprocess.run(["patch", "-p1", "-s", "-d", d, "-i", pp], capture_output=True, text=True)
+            if pr.returncode != 0:
+                return dict(hidden=name, which=which, got="patch-does-not-apply", ok=True)
+            r = subprocess.run([sys.executable, "-m", "pst.check", pid, "--repo", d, "--dry"], cwd=VERIF, capture_output=True,
+                               text=True, timeout=600)
+            rule = None
+            for ln in r.stdout.splitlines():
+                if " rule=" in ln:
+                    rule = ln.split(" rule=")[1].split(":")[0]
+                    break
+            got = {0: "silent", 1: "refute", 2: "unmodelled"}.get(r.returncode, "error")
+            if which == "clean":
+                ok = got != "refute"
+            else:
+                exp = meta.get("expect_patch", "")
+                ok = got == "refute" or (exp.startswith("undecided") and got == "unmodelled") or \
+                    ("or silent" in exp and got == "silent")   # a slip of another property's kind (see also_checked_by)
+            return dict(hidden=name, which=which, got=got, rule=rule, ok=ok)
+        except subprocess.TimeoutExpired:
+            return dict(hidden=name, which=which, got="timeout", rule=None, ok=which == "clean")
+        finally:
+            shutil.rmtree(d, ignore_errors=True)
+
+    with ThreadPoolExecutor(max_workers=12) as ex:
+        out = list(ex.map(one, jobs))
     return out
 
 
